@@ -52,6 +52,7 @@ Next ==
                          ELSE IF ev.other # <<>> THEN Flag(ev, "UnexpectedDirectoryEntry")
                          ELSE bad
                /\ UNCHANGED cfg
+       [] OTHER -> UNCHANGED <<s, cfg, bad, extbad>>
 
 Spec == Init /\ [][Next]_vars
 Report == IF l = Len(Trace) + 1 THEN PrintT(<<"CK-REPORT", Len(Trace), bad>>) ELSE TRUE
